@@ -130,7 +130,8 @@ def _rewrite(body, rules, counts):
                           r"((\1) <= \3 && \3 < (\2))", body)
         cnt("R7", n)
     if "R10" in rules:
-        body, n = re.subn(r"&(\w+)\[(\w+)\.\.(\w+)\]", r"slice_subrange(\1, \2, \3)", body)
+        # bounds may be arithmetic expressions over identifiers (no nested indexing / ranges / field access)
+        body, n = re.subn(r"&(\w+)\[([^\[\]\.]+?)\.\.([^\[\]\.]+?)\]", r"slice_subrange(\1, \2, \3)", body)
         cnt("R10", n)
     if "R3" in rules:
         body, n = re.subn(r"\bblend_fn\(", "blend_fn.call(", body)
